@@ -124,9 +124,22 @@ def run_case(case):
         sched_counters = [[0] for _ in range(ntrig.get("scheduled", 2))]
         sched_cbs = [inp.scheduled_event_trigger(sched_class(i, sched_counters[i])) for i in range(ntrig.get("scheduled", 2))]
 
+        trigger_failures = []
+
+        def guarded(fn, what):
+            # a trigger callback is called "from another thread": if it raises, the event is lost - that is a failure of
+            # the library, recorded and reported after the current step
+            try:
+                fn()
+            except Exception as e:  # noqa
+                trigger_failures.append(f"{what} raised {exc_str(e)}")
+
         def act_arrive(data, late=False, tokens=None):
             if setup == "pty" and len(model.fifo) - model.held + len(data) > 3500:
                 res.label("pty_arrival_skipped")  # 4 KiB pty buffer, single-threaded harness
+                return
+            if keynames != "bytes" and len(model.fifo) - model.held + len(data) > 1000:
+                res.label("name_mode_arrival_skipped")  # a read of READ_SIZE bytes must never cut a keypress in these cases
                 return
             stream.feed(data)
             if tokens:
@@ -144,13 +157,13 @@ def run_case(case):
                 n = counters["plain"][i]
                 counters["plain"][i] += 1
                 model.plain.append((i, n))
-                plain_cbs[i](n=n)
+                guarded(lambda: plain_cbs[i](n=n), "event_trigger callback")
             elif kind == "ts" and ts_cbs:
                 i %= len(ts_cbs)
                 n = counters["ts"][i]
                 counters["ts"][i] += 1
                 model.ts.append((i, n))
-                ts_cbs[i](n=n)
+                guarded(lambda: ts_cbs[i](n=n), "threadsafe_event_trigger callback")
 
         def act_schedule(i, dt):
             if not sched_cbs:
@@ -158,7 +171,7 @@ def run_case(case):
             i %= len(sched_cbs)
             when = sim.now + dt
             model.sched.append((when, i, sched_counters[i][0]))
-            sched_cbs[i](when)
+            guarded(lambda: sched_cbs[i](when), "scheduled_event_trigger callback")
 
         def act_sigint():
             if sigint_event and entered:
@@ -184,6 +197,21 @@ def run_case(case):
 
         with Patched(sim, read_hook):
             nreq = 0
+            # a second, unrelated Input on its own stream, left holding read-but-undecoded bytes while the history runs:
+            # objects must not share state
+            bystander = bystander_stream = None
+            if case.get("bystander"):
+                res.label("second_input_object_alive")
+                bystander_stream = PipeStream()
+                bystander = ci.Input(in_stream=bystander_stream, keynames="bytes", paste_threshold=None)
+                bystander_stream.feed(b"pqr")
+                try:
+                    first = bystander.send(0)
+                except Exception as e:  # noqa
+                    first = e
+                if first != b"p":
+                    res.viol("second_input_object_disturbed", got=repr(first)[:80], expected="b'p'", case=case)
+                    return res
 
             def request(timeout, during=(), inject=None, label_step=None):
                 nonlocal nreq
@@ -235,6 +263,9 @@ def run_case(case):
                     sim.clear_actions()
                 now = sim.now
                 ctx = dict(step=label_step, result=repr(out)[:120], case=case)
+                if trigger_failures:
+                    res.viol("trigger_callback_raised", detail=trigger_failures[:2], **ctx)
+                    return "stop"
                 if out is None:
                     if d0:
                         res.viol("none_while_deliverable", deliverable=d0, **ctx)
@@ -395,11 +426,52 @@ def run_case(case):
                     act_sigint()
                 elif op == "advance":
                     sim.now += step["dt"]
+                elif op == "garbage":
+                    # undecodable bytes: the decoder may reject them (raise) and they may be lost - but once they are gone
+                    # the object must work again.  Tolerant phase: request until the stream is quiet, judging nothing.
+                    if model.plain or model.ts or model.sched or model.sigints or keynames != "bytes":
+                        continue
+                    res.label("undecodable_bytes_then_recovery")
+                    res.nontrivial = True
+                    then = [bytes.fromhex(x) for x in step.get("then", [])]
+                    stream.feed(bytes.fromhex(step["data"]) + b"".join(then))
+                    quiet = 0
+                    got_keys = []
+                    for _ in range(200 + 2 * len(model.fifo)):
+                        try:
+                            r_ = inp.send(0)
+                        except Exception:
+                            r_ = "raised"
+                        if isinstance(r_, bytes):
+                            got_keys.append(r_)
+                        elif isinstance(r_, events.PasteEvent):
+                            got_keys.extend(k_ for k_ in r_.events if isinstance(k_, bytes))
+                        quiet = quiet + 1 if r_ is None else 0
+                        if quiet >= 2:
+                            break
+                    else:
+                        res.viol("never_quiet_after_undecodable_bytes", step=si, case=case)
+                        stop = True
+                        break
+                    if len(then) >= 2 and got_keys[-(len(then) - 1):] != then[1:]:
+                        # the keypress right behind the garbage may be damaged by it; everything after that must arrive
+                        res.viol("valid_keypresses_after_undecodable_bytes_lost", expected_tail=[x.hex() for x in then[1:]],
+                                 got=[x.hex() for x in got_keys[-6:]], step=si, case=case)
+                        stop = True
+                        break
+                    model.offset += len(model.fifo)
+                    model.fifo = bytearray()
+                    model.held = 0
+                    model.reads = []
                 elif op == "request":
                     r = request(step.get("timeout"), step.get("during", ()), step.get("inject"), si)
                     if r == "stop":
                         stop = True
                         break
+                if trigger_failures:
+                    res.viol("trigger_callback_raised", detail=trigger_failures[:2], step=si, case=case)
+                    stop = True
+                    break
             if not stop:
                 # drain
                 sim.now += 10.0
@@ -419,8 +491,22 @@ def run_case(case):
                 if not stop and not model.empty():
                     res.viol("not_everything_delivered_after_drain", bytes_left=len(model.fifo), plain_left=model.plain[:4],
                              threadsafe_left=model.ts[:4], scheduled_left=model.sched[:4], case=case)
+            if bystander is not None and not stop:
+                rest = []
+                for _ in range(4):
+                    try:
+                        rest.append(bystander.send(0))
+                    except Exception as e:  # noqa
+                        rest.append(exc_str(e))
+                if rest != [b"q", b"r", None, None]:
+                    res.viol("second_input_object_disturbed", got=repr(rest)[:120], expected="[b'q', b'r', None, None]", case=case)
             res.evals = max(1, nreq)
     finally:
+        try:
+            if bystander_stream is not None:
+                bystander_stream.close()
+        except Exception:
+            pass
         try:
             if entered:
                 inp.__exit__(None, None, None)
@@ -508,6 +594,8 @@ def strategy():
         st.fixed_dictionaries({"op": st.just("fire"), "kind": st.sampled_from(["plain", "ts"]), "i": st.integers(0, 1), "count": st.sampled_from([1, 1, 2, 3])}),
         st.fixed_dictionaries({"op": st.just("schedule"), "i": st.integers(0, 1), "dt": st.sampled_from([-1.0, 0.0, 0.02, 0.1, 0.1, 0.3, 5.0])}),
         st.fixed_dictionaries({"op": st.just("sigint")}),
+        st.fixed_dictionaries({"op": st.just("garbage"), "data": st.sampled_from(["c341", "e228a1", "fffe", "c3", "f09f98", "80", "e288", "c0af", "eda080", "1bc3a9"]),
+                               "then": st.sampled_from([[], [], ["61", "1b5b41", "c3a9", "62"], ["1b5b313b3543", "7a", "e28882"]])}),
         st.fixed_dictionaries({"op": st.just("advance"), "dt": st.sampled_from([0.01, 0.05, 0.09, 0.1, 0.2, 1.0])}),
         st.fixed_dictionaries({"op": st.just("request"), "timeout": st.sampled_from([0, 0, 0.01, 0.5, None]),
                                "during": st.lists(action, max_size=2), "inject": inject}),
@@ -525,7 +613,18 @@ def strategy():
     ])
     sigint_race = st.tuples(st.sampled_from([0.5, 0.5, None]), st.sampled_from([0.0, 0.005, 0.2])).map(
         lambda t: [{"op": "request", "timeout": t[0], "inject": None, "during": [{"act": "sigint", "at": t[1]}]}])
-    step = st.one_of(step, step, step, step, step, step, step, sched_race, sigint_race)
+    # a SIGINT between two requests, then a request that has nothing to deliver and must wait out its timeout
+    sigint_between = st.sampled_from([0.5, 0.01, 0.5]).map(lambda t: [
+        {"op": "request", "timeout": 0, "during": [], "inject": None}, {"op": "sigint"},
+        {"op": "request", "timeout": 0, "during": [], "inject": None}, {"op": "request", "timeout": t, "during": [], "inject": None},
+        {"op": "request", "timeout": t, "during": [], "inject": None}])
+    # equal scheduled times with deliveries of other scheduled events in between
+    sched_equal = st.tuples(st.sampled_from([0.1, 0.3]), st.integers(0, 1), st.integers(1, 2)).map(lambda t: (
+        [{"op": "schedule", "i": 0, "dt": 0.02}] * t[2] + [{"op": "schedule", "i": t[1], "dt": t[0]}]
+        + [{"op": "advance", "dt": 0.05}] + [{"op": "request", "timeout": 0, "during": [], "inject": None}] * t[2]
+        + [{"op": "schedule", "i": t[1], "dt": t[0] - 0.05}, {"op": "advance", "dt": 1.0},
+           {"op": "request", "timeout": 0, "during": [], "inject": None}, {"op": "request", "timeout": 0, "during": [], "inject": None}]))
+    step = st.one_of(step, step, step, step, step, step, step, step, sched_race, sigint_race, sigint_between, sched_equal)
 
     def fix(case):
         if case.get("keynames", "bytes") != "bytes":
@@ -561,6 +660,7 @@ def strategy():
             "paste_threshold": st.sampled_from([None, None, 0, 1, 8, 8, 100, 2000]),
             "sigint_event": st.booleans(),
             "keynames": st.sampled_from(["bytes", "bytes", "bytes", "curtsies", "curses"]),
+            "bystander": st.sampled_from([False, False, True]),
             "overshoot": st.sampled_from([0.0, 0.0005, 0.0005]),
             "pre_enter_requests": st.lists(st.sampled_from([0, 0, 0.01]), max_size=2),
             "steps": st.lists(step, min_size=1, max_size=15),
@@ -586,7 +686,25 @@ def straddle_cases(tier):
                            "steps": [{"op": "arrive", "data": data.hex(), "tokens": tokens}, {"op": "request", "timeout": 0, "during": [], "inject": None}]}
 
 
+def recovery_cases():
+    """undecodable bytes, then well-formed keypresses that must all be delivered; with and without a second Input alive"""
+    good = ["\x1b[A".encode(), "é".encode(), b"a", "\x1b[1;5C".encode()]
+    for g in ["c341", "e228a1", "fffe", "f09f98", "e288", "c0af", "eda080", "80"]:
+        for by in (False, True):
+            yield {"setup": "pipe", "paste_threshold": None, "sigint_event": False, "overshoot": 0.0, "bystander": by,
+                   "steps": [{"op": "arrive", "data": b"ab".hex(), "tokens": [1, 1]}, {"op": "request", "timeout": 0, "during": [], "inject": None},
+                             {"op": "garbage", "data": g, "then": ["61", "1b5b41", "c3a9", "62"] if by else []},
+                             {"op": "arrive", "data": b"".join(good).hex(), "tokens": [len(x) for x in good]},
+                             {"op": "request", "timeout": 0, "during": [], "inject": None}]}
+
+
 def campaign(col, tier, seed, shard, nshards):
+    for i, case in enumerate(recovery_cases()):
+        if i % nshards != shard:
+            continue
+        unknown = col.record(case, run_case(case), distinct=True, sample=False)
+        if unknown:
+            col.add_violation(case, unknown)
     for i, case in enumerate(straddle_cases(tier)):
         if i % nshards != shard:
             continue
